@@ -1,6 +1,7 @@
 package main
 
 import (
+	"go/types"
 	"fmt"
 	"go/token"
 
@@ -714,6 +715,16 @@ func (x *c04) regionRule(rule string, names []string) {
 			if bad == "" && !(lf.TripsOK && lf.Trips.equal(pCdiv(12, polyAtom("size")))) {
 				bad = "the number of pages mapped is not cdiv(size, 4096)"
 			}
+			// The polynomial forms are over the integers. The page count is also
+			// computed in unsigned machine arithmetic: a subtraction in it must not
+			// be able to wrap (size - 1 for size == 0 is 2^64-1).
+			if bad == "" {
+				for _, tv := range lf.tripValues(g) {
+					if sub := unguardedSub(g, tv, 0); sub != nil {
+						bad = "the page count is computed with the unsigned subtraction `" + sub.String() + "` that is not guarded against wrap-around: a zero (or too small) size maps an enormous number of pages"
+					}
+				}
+			}
 			lf.Done()
 		}
 		// first error returned
@@ -761,4 +772,52 @@ func (x *c04) regionRule(rule string, names []string) {
 		}
 		c.check(bad == "", rule, key, "maps exactly cdiv(size,4096) pages, page and frame advance together by one, flags unchanged, first error returned", bad, g.posOf(cn))
 	}
+}
+
+
+// unguardedSub finds, in the expression tree of v (through arithmetic and
+// conversions, not through merges or calls), an unsigned subtraction x - k
+// whose operands are not known to satisfy x >= k where it is computed.
+func unguardedSub(g *IG, v ssa.Value, depth int) *ssa.BinOp {
+	if depth > 8 {
+		return nil
+	}
+	switch x := v.(type) {
+	case *ssa.Convert:
+		return unguardedSub(g, x.X, depth+1)
+	case *ssa.ChangeType:
+		return unguardedSub(g, x.X, depth+1)
+	case *ssa.BinOp:
+		if x.Op == token.SUB {
+			if bt, ok := x.Type().Underlying().(*types.Basic); ok && bt.Info()&types.IsUnsigned != 0 {
+				guarded := false
+				if n, ok := g.Idx[x]; ok {
+					for _, f := range g.FactsAt(n) {
+						if f.Y == nil {
+							continue
+						}
+						// x.X >= x.Y, x.X > c with c >= x.Y - 1, x.X != 0 when x.Y == 1
+						if cmpMatch(f, token.GEQ, func(a ssa.Value) bool { return a == x.X }, func(b ssa.Value) bool { return b == x.Y }) {
+							guarded = true
+						}
+						if k, isK := constUint64(x.Y); isK {
+							if cmpMatch(f, token.GEQ, func(a ssa.Value) bool { return a == x.X }, func(b ssa.Value) bool { c, ok := constUint64(b); return ok && c >= k }) ||
+								cmpMatch(f, token.GTR, func(a ssa.Value) bool { return a == x.X }, func(b ssa.Value) bool { c, ok := constUint64(b); return ok && c+1 >= k }) ||
+								k == 1 && cmpMatch(f, token.NEQ, func(a ssa.Value) bool { return a == x.X }, isZeroConst) {
+								guarded = true
+							}
+						}
+					}
+				}
+				if !guarded {
+					return x
+				}
+			}
+		}
+		if s := unguardedSub(g, x.X, depth+1); s != nil {
+			return s
+		}
+		return unguardedSub(g, x.Y, depth+1)
+	}
+	return nil
 }
